@@ -5,7 +5,7 @@ HERE = os.path.dirname(os.path.dirname(os.path.abspath(__file__)))
 
 CHECKS = {
  'C01': dict(
-   technique='partial evaluation of the emitters per opcode row + typed-template semantic descriptors (bit-slice abstract domain, affine rotate counts, guard/trap chains)',
+   technique='partial evaluation of the emitters per opcode row + typed-template semantic descriptors (bit-slice abstract domain, affine rotate counts, guard/trap chains); exact C-semantics evaluation of the template expressions on a boundary operand grid as second decision and refutation fallback; header parsed with and without compiler builtins (portable bit-counting functions evaluated on an operand-pattern grid)',
    text='For all 66 integer numeric encodings, both formatting modes (thorough: also symbol prefixing and the non-builtin header '
         'configuration): the emitted statement, parsed against the current w2c2_base.h with macros expanded, has the operator, operand '
         'order, signed/unsigned bit-slice interpretation, shift mask, rotate counts and div/rem guard-to-trap structure of the '
@@ -70,7 +70,7 @@ CHECKS = {
    note='What the embedder\'s resolver returns, allocation failure and calloc semantics are outside the analysis.',
    ref='DESIGN.md 4/C06'),
  'C07': dict(
-   technique='partial evaluation of the emitter + exact predicate abstraction over bit fields; AST format/type rules',
+   technique='partial evaluation of the emitter + exact predicate abstraction over bit fields; AST format/type rules; concrete evaluation of the literal writer on a boundary bit-pattern family with the written constant read back under C conversion semantics (second decision, fallback for unrecognised writer shapes)',
    text='Decides statically, for all 2^32/2^64 immediates, that the translator\'s float classification tree equals the '
         'IEEE-754 classes (NaN -> bit-exact hex reinterpret, +-inf, -0, finite -> >=9/17-digit decimal), that integer '
         'literal forms and format length modifiers preserve all bits, that each const opcode is decoded by the reader '
@@ -93,7 +93,7 @@ CHECKS = {
         'encodings, element-segment kinds beyond what the reader supports. The function hash depends on body bytes by design (file order only).',
    ref='DESIGN.md 4/C08'),
  'C09': dict(
-   technique='structured lock-region must-analysis (held/free facts per mutex with loop fixpoint) of the writer pool in the HAS_PTHREAD=1 configuration; call-graph effect analysis of everything reachable from the worker entry (stores by storage class, non-reentrant callees, const casts); path enumeration of the static/dynamic split loops; typed-AST equality of every template across formatting modes; partial evaluation of File/String twin emitters on argument grids derived from parameter types',
+   technique='structured lock-region must-analysis (held/free facts per mutex with loop fixpoint) of the writer pool in the HAS_PTHREAD=1 configuration; call-graph effect analysis of everything reachable from the worker entry (stores by storage class, non-reentrant callees, const casts); path enumeration of the static/dynamic split loops; typed-AST equality of every template across formatting modes; partial evaluation of File/String twin emitters on argument grids derived from parameter types; partial evaluation of the bundled getopt from program start on command-line families against POSIX getopt',
    text='Worker and producer: every access to writer.task / writer.done / the shared task record happens with the writer mutex held, '
         'lock and unlock are paired on every path including the done exit, every pthread_cond_wait sits in a while loop over the shared '
         'predicate with that mutex, posting a task is followed by a signal and done by a broadcast before the unlock, the worker clears the '
@@ -133,7 +133,7 @@ CHECKS = {
         'compilers themselves are trusted. Exact trap boundaries of float-to-int are decided in C02. Debug-mode #line paths and __asm__ labels are not covered.',
    ref='DESIGN.md 4/C11'),
  'C12': dict(
-   technique='partial evaluation of every I/O import (both ABI generations) with symbolic guest memory: affine guest load/store offsets vs witx layouts, native-call argument provenance, table evaluation against host macros read at run time, seek/restore pairing with errno havoc',
+   technique='partial evaluation of every I/O import (both ABI generations) with symbolic guest memory: affine guest load/store offsets vs witx layouts, native-call argument provenance, table evaluation against host macros read at run time, seek/restore pairing with errno havoc; partial evaluation of the same imports on a concrete guest memory and a model of a regular file (single transfers over iovec shapes, and all call sequences of bounded length) against an independent POSIX reference',
    text='ABI signatures of all imports are compared with the witx lowering (mismatches of the nine imports named by the property are '
         'violations). For fd_read/fd_write/fd_pread/fd_pwrite with 0, 1 and 3 segments: the vector is read at stride 8 (buf@0, len@4) in '
         'ascending order, native segment k is built from guest entry k, the native call gets the table\'s fd and the same count, the u32 '
@@ -157,7 +157,7 @@ CHECKS = {
         'unimplemented upstream (unconditional ENOSYS) are listed in the evidence but not decided.',
    ref='DESIGN.md 4/C13'),
  'C14': dict(
-   technique='taint rule by partial evaluation (source guest pointer, sanitizer resolvePath, sinks native path calls); linear-form bound entailment for resolvePath; must-precede rule on readdir path summaries; witx dirent layout',
+   technique='taint rule by partial evaluation (source guest pointer, sanitizer resolvePath, sinks native path calls); linear-form bound entailment for resolvePath; largest-admitted-value bound for every write of a path import into its fixed-size buffers; must-precede rule on readdir path summaries; witx dirent layout; errno table decided row by row',
    text='For the eight path_* imports of both generations the native path argument is a copy of resolvePath\'s output, resolution is anchored '
         'at the stored descriptor path, a failed resolution stops before any host call, the host operation is the one the import names and '
         'its failure is reported. resolvePath is summarised with symbolic strlen(directory) and pathLength: every memcpy/store is bounded, '
@@ -201,7 +201,7 @@ CHECKS = {
         'are not decided (model-checking territory). pthread semantics and the map/list primitives are trusted.',
    ref='DESIGN.md 4/C17'),
  'C18': dict(
-   technique='static lock-set consistency over partial-evaluation path summaries (ordered read/write/lock/unlock traces of the memory descriptor)',
+   technique='static lock-set consistency over partial-evaluation path summaries (ordered read/write/lock/unlock traces of the memory descriptor); mutex balance of every runtime function that takes the memory mutex in both atomics configurations; rendered InitMemories for every limits pair',
    text='On every shared path of wasmMemoryGrow all reads and writes of pages/size lie inside the single, balanced lock region of the '
         'memory mutex; shared memories are never reallocated or given a new data pointer; failed grows store nothing; the memory.size '
         'template reads the page count through an accessor whose summary holds the mutex (a plain field read is reported).',
@@ -209,7 +209,7 @@ CHECKS = {
         'pthread mutex semantics trusted; fairness not addressed.',
    ref='DESIGN.md 4/C18'),
  'C19': dict(
-   technique='path summaries of the runtime header parsed for a big-endian target description; count/width/position of byte reversals on symbolic values; cast query over wasi.c',
+   technique='path summaries of the runtime header parsed for a big-endian target description with and without compiler swap builtins; count/width/position of byte reversals on symbolic values (open-coded reversals recognised semantically on a bit basis); concrete byte-level evaluation of all access functions; cast query over wasi.c',
    text='For all 86 access flavours in the big-endian configuration the value returned and the value stored each carry exactly one byte '
         'reversal of exactly the access width, applied to the loaded bytes / as the last step before the store, none for 8-bit and bulk '
         'copies; RMW/cmpxchg are single lock regions; the translator\'s float-immediate readers reverse once (and not at all on '
